@@ -667,16 +667,35 @@ void add_arrays() {
 #endif
 }
 
+// The element types are spread over C15_PART = 0..5 so that one -std= can be compiled as six translation units in
+// parallel (the whole enumeration in one unit takes minutes to compile with the sanitizers); without -DC15_PART the
+// program covers everything.  checks/c15.py maps a case id to its part by the type field.
+#ifndef C15_PART
+#define C15_PART -1
+#endif
+#define C15_IN_PART(i) (C15_PART < 0 || C15_PART == (i))
 void register_groups() {
+#if C15_IN_PART(0)
   add_type<int>();
+#endif
+#if C15_IN_PART(1)
   add_type<TC4>();
-  add_type<TCN>();
-  add_type<TR>();
-  add_type<NTR>();
-  add_type<NTRX>();
   add_arrays<TC4>();
+#endif
+#if C15_IN_PART(2)
+  add_type<TCN>();
+#endif
+#if C15_IN_PART(3)
+  add_type<TR>();
+#endif
+#if C15_IN_PART(4)
+  add_type<NTR>();
   add_arrays<NTR>();
+#endif
+#if C15_IN_PART(5)
+  add_type<NTRX>();
   add_arrays<NTRX>();
+#endif
 }
 
 }  // namespace c15
